@@ -683,9 +683,14 @@ type c01Runner struct {
 	confirms map[string]int
 	nconfirm int
 	err      error
+	// the cells evaluated on the current interpreter (the most recent ones): a disagreement
+	// that a fresh interpreter does not reproduce is replayed with its history
+	history []c01Cell
 	// counters merged into the context when the worker ends
 	gateChecked, gateRejects, traces int64
 }
+
+const c01HistoryLen = 2000
 
 const c01Reuse = 60000 // evaluations per interpreter before it is replaced
 
@@ -696,6 +701,7 @@ func (r *c01Runner) interp() (*c01Env, error) {
 			return nil, err
 		}
 		r.env, r.used = e, 0
+		r.history = r.history[:0]
 	}
 	return r.env, nil
 }
@@ -754,6 +760,10 @@ func (r *c01Runner) eval(cell *c01Cell) {
 		return
 	}
 	r.used++
+	if len(r.history) >= c01HistoryLen {
+		r.history = append(r.history[:0], r.history[c01HistoryLen/2:]...)
+	}
+	r.history = append(r.history, *cell)
 	got := env.eval(cell)
 	r.c.Case(cell.Key(), true)
 	r.traces++
@@ -774,8 +784,24 @@ func (r *c01Runner) eval(cell *c01Cell) {
 		}
 		got2 := fresh.eval(cell)
 		if c01Agree(cell.Want, got2) {
-			r.err = core.Infra("disagreement not reproducible in a fresh interpreter: %s %s: specification %s, first observed %s",
-				cell.Source(), c01Operands(cell), cell.Want, got)
+			// the outcome may depend on what the interpreter evaluated before (recycled frames,
+			// caches): replay the recent history of this interpreter on another fresh one
+			again, err := newC01Env()
+			if err != nil {
+				r.err = err
+				return
+			}
+			for i := range r.history {
+				got2 = again.eval(&r.history[i])
+			}
+			if c01Agree(cell.Want, got2) {
+				r.err = core.Infra("disagreement not reproducible in a fresh interpreter, alone or after the %d evaluations that preceded it: %s %s: specification %s, first observed %s",
+					len(r.history)-1, cell.Source(), c01Operands(cell), cell.Want, got)
+				return
+			}
+			what := fmt.Sprintf("%s   with %s\n  specification (= compiled Go): %s\n  gomacro: %s\n  (only after the %d evaluations that preceded it in the same interpreter; alone in a fresh interpreter the result is right)",
+				cell.Source(), c01Operands(cell), cell.Want, got2, len(r.history)-1)
+			r.c.Violation("history-dependent:"+c01Sig(cell, got2), what, c01ReplayCase(cell, got2))
 			return
 		}
 		got = got2
